@@ -56,7 +56,13 @@ def env() -> dict[str, Any]:
     return _E
 
 
-def preds_for(cls: str, field_variant: bool) -> list:
+def unnorm_types() -> list:
+    """request types that normalize_type refuses (spec: Req = "U")"""
+    typing = env()["typing"]
+    return [typing.Optional, typing.Union, typing.Final, "Zzz", typing.ForwardRef("Zzz"), typing.List["Zzz"], typing.ClassVar]
+
+
+def preds_for(cls: str, field_variant: bool, req: str = "A") -> list:
     e = env()
     P, M = e["P"], e["M"]
     numbers, cabc, typing = e["numbers"], e["collections"].abc, e["typing"]
@@ -65,7 +71,12 @@ def preds_for(cls: str, field_variant: bool) -> list:
     if cls == "exB":
         return [str, P[str]]
     if cls == "exC":
-        return [bytes, P[bytes]]
+        return [None, P[None], type(None)]          # the exact origin None
+    if req == "U":
+        if cls == "predY":
+            return [P.ANY, ~P[str], ~P[int], P.ANY & ~P[str], ~(P[int] | P[str]), ~P[None]]
+        if cls == "predN":
+            return [P[str] | P[bytes], P[int] & P.ANY, "other", "fld", P[int] ^ P[int], numbers.Integral, cabc.Mapping, P[M].fld, P[None] | P[int]]
     if cls == "predY":
         common = [P[int] | P[str], P[int, str], numbers.Integral, P[int] ^ P[str], typing.SupportsInt,
                   P[int] & ~P[str], ~~P[int]]
@@ -121,7 +132,10 @@ def build_and_run(case: dict, gseed: int) -> dict:
     rec = case["rec"]
     tail = case["tail"]
     side = rng.choice(["load", "dump"])
-    field_variant = tail and rng.random() < 0.4
+    req = case.get("req", "A")
+    field_variant = tail and rng.random() < 0.4 and req == "A"
+    unnorm = unnorm_types()
+    req_tp = int if req == "A" else unnorm[rng.randrange(len(unnorm))]
     req_name = "LoaderRequest" if side == "load" else "DumperRequest"
     facade = e["loader"] if side == "load" else e["dumper"]
     Chain, bound, ChainingProvider = e["Chain"], e["bound"], e["ChainingProvider"]
@@ -130,11 +144,11 @@ def build_and_run(case: dict, gseed: int) -> dict:
     desc = []
 
     def probe(request):
-        return request.last_loc.type is int
+        return request.last_loc.type is req_tp
 
     providers = []
     for idx, p in enumerate(rec, start=1):
-        choices = preds_for(p["c"], field_variant)
+        choices = preds_for(p["c"], field_variant, req)
         k = rng.randrange(len(choices))
         pred = choices[k]
         h = p["h"]
@@ -171,9 +185,9 @@ def build_and_run(case: dict, gseed: int) -> dict:
     if how == 3:
         retort = retort.replace(hide_traceback=False)
     layout = {"extend": c1, "instance": c2 - c1, "class_R1": c3 - c2, "class_R0": n - c3, "base": base_cls.__name__,
-              "side": side, "field_variant": field_variant, "replace": how}
+              "side": side, "field_variant": field_variant, "replace": how, "request_type": repr(req_tp)}
     from adaptix import ProviderNotFoundError
-    tp = e["M"] if field_variant else int
+    tp = e["M"] if field_variant else req_tp
     obs: dict[str, Any]
     try:
         func = retort.get_loader(tp) if side == "load" else retort.get_dumper(tp)
@@ -209,11 +223,138 @@ def build_and_run(case: dict, gseed: int) -> dict:
     return {"mismatch": mismatch, "exp": exp, "obs": obs, "desc": desc, "layout": layout}
 
 
+def build_nested_and_run(case: dict, gseed: int) -> dict:
+    """spec/RouterNest.tla: pre + [bound(w, Inner(inner))] + post on the real library; markers also record which retort answers
+    their StrictCoercionRequest"""
+    e = env()
+    from adaptix import ProviderNotFoundError
+    from adaptix._internal.morphing.request_cls import StrictCoercionRequest
+    rng = random.Random(f"N{gseed}:{json.dumps([case['pre'], case['inner'], case['post']], sort_keys=True)}:{case['cut']}:{case['w']}")
+    Chain, bound, ChainingProvider, Provider, CannotProvide = e["Chain"], e["bound"], e["ChainingProvider"], e["Provider"], e["CannotProvide"]
+    side = "load"
+    log: list[int] = []
+    opts: dict[int, bool] = {}
+    desc: list[str] = []
+
+    def mk(idx, kind):
+        class Marker(Provider):
+            def get_request_handlers(self):
+                def handler(mediator, request):
+                    if request.last_loc.type is int:
+                        log.append(idx)
+                    if kind == "decline":
+                        raise CannotProvide(f"marker {idx} declines")
+                    if kind in ("func", "plain"):
+                        if request.last_loc.type is int:
+                            opts[idx] = mediator.mandatory_provide(StrictCoercionRequest(loc_stack=request.loc_stack))
+                        return fn(idx)
+                    nxt = mediator.provide_from_next()
+                    return lambda x: fn(idx)(nxt(x))
+                return [(e["LoaderRequest"], e["AlwaysTrueRequestChecker"](), handler)]
+
+            def __repr__(self):
+                return f"Marker({idx},{kind})"
+        return Marker()
+
+    def build(rec, base):
+        out = []
+        for k, p in enumerate(rec, start=1):
+            idx = base + k
+            choices = preds_for(p["c"], False)
+            pred = choices[rng.randrange(len(choices))]
+            if p["h"] in ("first", "last"):
+                chain = Chain.FIRST if p["h"] == "first" else Chain.LAST
+                out.append(bound(pred, ChainingProvider(chain, mk(idx, "func"))))
+                desc.append(f"{idx}: bound({pred!r}, ChainingProvider(Chain.{chain.name}, Marker))")
+            else:
+                out.append(bound(pred, mk(idx, p["h"])))
+                desc.append(f"{idx}: bound({pred!r}, Marker({p['h']}))")
+        return out
+    a, b = len(case["pre"]), len(case["inner"])
+    pre, inner, post = build(case["pre"], 0), build(case["inner"], a), build(case["post"], a + b)
+    cut = min(case["cut"], b)
+    inner_cls = type("Inner", (e["Bare"],), {"recipe": list(inner[cut:])})
+    inner_retort = inner_cls(recipe=inner[:cut], strict_coercion=case["inner_strict"])
+    if rng.random() < 0.3:
+        inner_retort = inner_retort.replace(debug_trail=e["DebugTrail"].FIRST)
+    if case["w"] == "none":
+        placed = inner_retort
+    else:
+        choices = preds_for(case["w"], False)
+        placed = bound(choices[rng.randrange(len(choices))], inner_retort)
+    full = pre + [placed] + post
+    c1 = rng.randint(0, len(full))
+    outer_cls = type("Outer", (e["Bare"],), {"recipe": list(full[c1:])})
+    retort = outer_cls(recipe=full[:c1], strict_coercion=case["outer_strict"])
+    layout = {"outer_instance": c1, "inner_instance": cut, "wrapper": case["w"]}
+    try:
+        func = retort.get_loader(int)
+    except ProviderNotFoundError:
+        obs = {"ok": False, "term": [], "log": list(log), "strict": None}
+    else:
+        value = func(0)
+        obs = {"ok": True, "term": [int(ch) for ch in str(value)] if value != 0 else [], "log": list(log),
+               "strict": opts.get(log[-1]) if log else None}
+    exp = {"ok": case["ok"], "term": case["term"], "log": case["log"], "strict": case["strict"] if case["ok"] else None}
+    mismatch = None
+    if obs["ok"] != exp["ok"]:
+        mismatch = "nested_served_or_refused"
+    elif obs["log"] != exp["log"]:
+        mismatch = "nested_consult_log"
+    elif obs["term"] != exp["term"]:
+        mismatch = "nested_composed_term"
+    elif obs["strict"] != exp["strict"]:
+        mismatch = "nested_options"
+    return {"mismatch": mismatch, "exp": exp, "obs": obs, "desc": desc, "layout": layout}
+
+
+def nested_scenarios(ctx: Ctx) -> None:
+    """the documented use: bound(T, Retort(...)) - the inner retort is a full Retort configured only through options / a class
+    level recipe (RouterNest.tla GoverningStrict with an empty instance recipe)"""
+    from typing import List
+
+    from adaptix import Retort, bound, loader
+    from adaptix.load_error import LoadError
+
+    def accepts(retort, tp, datum):
+        try:
+            retort.load(datum, tp)
+            return True
+        except LoadError:
+            return False
+
+    class ClsRecipe(Retort):
+        recipe = [loader(int, lambda x: ("cls", x))]
+    n = 0
+    for outer_strict in (True, False):
+        inner = Retort(strict_coercion=not outer_strict)
+        for placed, label in ((bound(int, inner), "bound(int, Retort(strict_coercion=...))"), (bound(List[int], inner), "bound(List[int], Retort(...))")):
+            outer = Retort(recipe=[placed], strict_coercion=outer_strict)
+            for tp, datum, by_inner in ((int, "12", label.startswith("bound(int")), (List[int], ["12"], True), (str, 5, False)):
+                n += 1
+                if tp is str:
+                    exp = not outer_strict       # str(5) is accepted only without strict coercion
+                else:
+                    governing = (not outer_strict) if by_inner else outer_strict
+                    exp = not governing
+                got = accepts(outer, tp, datum)
+                if got != exp:
+                    ctx.violation({"mismatch": "nested_options_scenario"}, f"{label} in Retort(strict_coercion={outer_strict}): load({datum!r}, {tp}) "
+                                  f"{'accepted' if got else 'rejected'}, the governing retort ({'inner' if by_inner else 'outer'}) says {'accept' if exp else 'reject'}",
+                                  {"label": label, "outer_strict": outer_strict, "tp": str(tp), "datum": datum})
+    for placed, label in ((ClsRecipe(), "Retort subclass with class-level recipe placed directly"), (bound(int, ClsRecipe()), "bound(int, subclass with class-level recipe)")):
+        n += 1
+        got = Retort(recipe=[placed]).load(3, int)
+        if got != ("cls", 3):
+            ctx.violation({"mismatch": "nested_class_recipe_scenario"}, f"{label}: load(3, int) = {got!r}, the inner class recipe says ('cls', 3)", {"label": label})
+    ctx.replayed += n
+
+
 def _replay_chunk(items) -> dict:
     out = {"n": 0, "bad": [], "errors": []}
     for gseed, case in items:
         try:
-            r = build_and_run(case, gseed)
+            r = build_nested_and_run(case, gseed) if "inner" in case else build_and_run(case, gseed)
         except Exception as ex:  # noqa: BLE001
             import traceback
             out["errors"].append({"case": case, "exc": repr(ex), "tb": traceback.format_exc()[-1500:]})
@@ -232,6 +373,9 @@ def replay_cases(ctx: Ctx, cases, gseed: int) -> None:
         ctx.replayed += o["n"]
         bad += o["bad"]
         errors += o["errors"]
+    for b in bad + errors:
+        if "inner" in b["case"]:
+            b["case"]["rec"] = b["case"]["pre"] + [{"c": "retort:" + b["case"]["w"], "h": _short(b["case"]["inner"])}] + b["case"]["post"]
     bad.sort(key=lambda b: (len(b["case"]["rec"]), json.dumps(b["case"]["rec"])))
     for b in bad:
         ctx.violation({"mismatch": b["mismatch"]},
@@ -320,18 +464,18 @@ def run(ctx: Ctx) -> None:
                        "predicate concretisations in c09.preds_for belong to the stated checker class (checked by C10)"]
     max_len = 3 if quick else 4
     total_cases = 0
-    for tail in (False, True):
-        cfg = make_cfg(constants=dict(MaxLen=max_len, ResetComboOnSingle=True, WithTail=tail, EmitCases=True),
+    for tail, req in ((False, "A"), (True, "A"), (False, "U"), (True, "U")):
+        cfg = make_cfg(constants=dict(MaxLen=max_len if req == "A" or not quick else 2, ResetComboOnSingle=True, WithTail=tail, Req=f'"{req}"', EmitCases=True),
                        invariants=INVS)
-        res = run_tlc(ctx.scratch, "Router", cfg, tag=f"Router_tail{int(tail)}", coverage=quick, timeout_s=3000)
-        ctx.add_tlc(res, f"exhaustive MaxLen={max_len} WithTail={tail}")
+        res = run_tlc(ctx.scratch, "Router", cfg, tag=f"Router_tail{int(tail)}_{req}", coverage=quick, timeout_s=3000)
+        ctx.add_tlc(res, f"exhaustive MaxLen={max_len} WithTail={tail} request={req}")
         if not res.ok:
             ctx.model_violation(res, "design model of the router violates its own property")
         cases = []
         for r in res.records():
             cases.append(r)
-            nontriv = any(p["c"] in ("exA", "predY") for p in r["rec"])
-            ctx.case(_short(r["rec"]) + str(tail), nontrivial=nontriv,
+            nontriv = any(p["c"] in (("exA", "predY") if req == "A" else ("predY",)) for p in r["rec"])
+            ctx.case(_short(r["rec"]) + str(tail) + req, nontrivial=nontriv,
                      sample={"recipe": _short(r["rec"]), "tail": tail, "expected_log": r["log"], "expected_term": r["term"]}
                      if len(r["rec"]) == max_len and nontriv and len(r["log"]) > 2 else None)
         total_cases += len(cases)
@@ -339,7 +483,7 @@ def run(ctx: Ctx) -> None:
     ctx.exhaustive = True
     # deeper recipes by simulation (spec -> code)
     sim_n = 3000 if quick else 40000
-    cfg = make_cfg(constants=dict(MaxLen=8, ResetComboOnSingle=True, WithTail=True, EmitCases=True), invariants=INVS)
+    cfg = make_cfg(constants=dict(MaxLen=8, ResetComboOnSingle=True, WithTail=True, Req='"A"', EmitCases=True), invariants=INVS)
     res = run_tlc(ctx.scratch, "Router", cfg, tag="Router_sim", simulate={"num": sim_n, "depth": 80}, seed=ctx.seed + 1,
                   workers=4, timeout_s=1200)
     ctx.add_tlc(res, f"simulation MaxLen=8 num={sim_n}")
@@ -354,8 +498,35 @@ def run(ctx: Ctx) -> None:
             sim_cases.append(r)
             ctx.case("sim" + k, nontrivial=len(r["log"]) > 0)
     replay_cases(ctx, sim_cases, ctx.seed + 7)
+    # retorts placed in recipes (spec/RouterNest.tla)
+    nest_len = 2 if quick else 3
+    cfg = make_cfg(constants=dict(MaxLen=nest_len, EmitCases=True), invariants=["FlatWhenNoInnerChain", "InnerIsolated", "NoTwice", "ServedByInnerGetsInnerOptions", "EmitCase"])
+    res = run_tlc(ctx.scratch, "RouterNest", cfg, tag="RouterNest", timeout_s=3000)
+    ctx.add_tlc(res, f"nested retorts, exhaustive up to {nest_len} leaf providers")
+    if not res.ok:
+        ctx.model_violation(res, "RouterNest.tla violates its own properties")
+    cases = list(res.records())
+    for r in cases:
+        ctx.case("nest" + json.dumps([r["pre"], r["inner"], r["post"], r["cut"], r["w"], r["outer_strict"]]), nontrivial=len(r["log"]) > 0)
+    replay_cases(ctx, cases, ctx.seed + 3)
+    sim_n = 4000 if quick else 40000
+    cfg = make_cfg(constants=dict(MaxLen=6, EmitCases=True), invariants=["FlatWhenNoInnerChain", "InnerIsolated", "NoTwice", "ServedByInnerGetsInnerOptions", "EmitCase"])
+    res = run_tlc(ctx.scratch, "RouterNest", cfg, tag="RouterNest_sim", simulate={"num": sim_n, "depth": 12}, seed=ctx.seed + 5, workers=4, timeout_s=1200)
+    ctx.add_tlc(res, f"nested retorts, simulation up to 6 leaf providers num={sim_n}")
+    if not res.ok:
+        ctx.model_violation(res, "RouterNest.tla violates its own properties in simulation")
+    seen = set()
+    sim_cases = []
+    for r in res.records():
+        k = json.dumps([r["pre"], r["inner"], r["post"], r["cut"], r["w"], r["outer_strict"]])
+        if k not in seen:
+            seen.add(k)
+            sim_cases.append(r)
+            ctx.case("nestsim" + k, nontrivial=len(r["log"]) > 0)
+    replay_cases(ctx, sim_cases, ctx.seed + 9)
+    nested_scenarios(ctx)
     # spec mutant: non-vacuity of the model-level check
-    cfg = make_cfg(constants=dict(MaxLen=2, ResetComboOnSingle=False, WithTail=False, EmitCases=False), invariants=INVS)
+    cfg = make_cfg(constants=dict(MaxLen=2, ResetComboOnSingle=False, WithTail=False, Req='"A"', EmitCases=False), invariants=INVS)
     res = run_tlc(ctx.scratch, "Router", cfg, tag="Router_mutant", expect_violation=True, timeout_s=600)
     ctx.add_tlc(res, "spec mutant ResetComboOnSingle=FALSE (must be violated)")
     if res.ok:
